@@ -320,6 +320,7 @@ class Interp(Exec):
         self.touch(TInt, z3.IntVal(0))
         if lst is not None:
             self.st.env["loop_n"] = VInt(lst.n)
+            self.st.env["loop_list"] = it
             self.touch(TInt, lst.n)
         for j, inv in enumerate(invs):
             self.prove_clause("loop%d-entry/%d" % (ordinal, j), inv, kind="loop-entry")
